@@ -167,6 +167,14 @@ func (c *Ctx) call(in ssa.Instruction, cc *ssa.CallCommon, st *State, deferred b
 		pre = st.clone()
 	}
 	res := c.callInner(in, cc, st, deferred)
+	if res != nil {
+		// provenance of call results (spec function resultOf)
+		id := c.identifyCallee(cc)
+		if id.builtin == "" {
+			tag := fmt.Sprint(c.provID(id.short))
+			res = c.tagProv(res, tag)
+		}
+	}
 	if !deferred && len(c.activeRules) > 0 && c.curReach != "false" {
 		c.applyRuleEnsures(cc, res, st, pre)
 	}
